@@ -506,6 +506,55 @@ func init() {
 						c.Violation("arguments-from-one-array", fmt.Sprintf("the page rendered %s, want %q", got.Describe(), want), map[string]any{"files": describeFiles(files), "from_data": fromData})
 					}
 				}},
+				// uses next to postfix operators, loops inside component files and quoted quotes: every use shows its own arguments,
+				// the page's variables and loop object are what they were
+				{Name: "uses-among-operators-loops-and-quotes", Exhaustive: true, N: 7, Run: func(c *core.Ctx, i int) {
+					var files map[string]string
+					var data map[string]any
+					var want string
+					switch i {
+					case 0: // postfix -- / ++ on a float of the page inside the component file: every use starts from the page's value
+						files = map[string]string{"components/spend.tw": "<{{ budget-- }}|{{ budget }}|{{ budget++ }}>", "page.tw": "@component(\"~spend\")@component(\"~spend\")@each(k in [1, 2])@component(\"~spend\")@end{{ budget }}"}
+						data = map[string]any{"budget": 9.5}
+						want = "<8.5|9.5|10.5><8.5|9.5|10.5><8.5|9.5|10.5><8.5|9.5|10.5>9.5"
+					case 1: // postfix operators in arguments
+						files = map[string]string{"components/show.tw": "<{{ p }}/{{ q }}>", "page.tw": "{{ price = 4.5 }}{{ n = 3 }}@component(\"~show\", {p: price--, q: n++})@component(\"~show\", {p: price--, q: n--})@each(k in [1, 2])@component(\"~show\", {p: price++, q: n})@end{{ price }}/{{ n }}"}
+						want = "<3.5/4><3.5/2><5.5/3><5.5/3>4.5/3"
+					case 2: // a loop inside the component file, used in a loop of the page: the page's loop object is back after the use
+						files = map[string]string{"components/list.tw": "(@each(e in es){{ loop.iter }}{{ loop.last ? \".\" : \",\" }}@end@slot)", "page.tw": "@each(row in rows)[{{ loop.index }}@component(\"~list\", {es: row})@slot {{ loop.iter }}/{{ loop.last }}@end@end{{ loop.iter }}{{ loop.first }}]@end"}
+						data = map[string]any{"rows": [][]int{{1, 2, 3}, {4}, {}}}
+						want = "[0(1,2,3. 1/0)11][1(1. 2/0)20][2( 3/1)30]"
+					case 3: // the loop object of the page as arguments of a later use, after a use that loops
+						files = map[string]string{"components/list.tw": "(@each(e in es){{ e }}@end)", "components/at.tw": "<{{ i }}:{{ l }}>", "page.tw": "@each(row in rows)@component(\"~list\", {es: row})@component(\"~at\", {i: loop.iter, l: loop.last})@for(k = 0; k < 1; k++)@component(\"~list\", {es: [k]})@end;{{ loop.index }}@end"}
+						data = map[string]any{"rows": [][]int{{1, 2}, {3}}}
+						want = "(12)<1:0>(0);0(3)<2:1>(0);1"
+					case 4: // quoted quotes in arguments and slot bodies, either quote style
+						files = map[string]string{"components/say.tw": "<{{ label }}|@if(label == \"Ann's\")A@else B@end|@slot>", "page.tw": "@component(\"~say\", {label: 'Ann\\'s'})@slot{{ 'it\\'s' }} {{ \"say \\\"hi\\\"\" }}@end@end@component(\"~say\", {label: \"Ann's\"})@component(\"~say\", {label: \"a\\\"b\"})"}
+						want = "<Ann's|A|it's say \"hi\"><Ann's|A|><a\"b| B|>"
+					case 5: // integers under postfix operators, nested uses
+						files = map[string]string{"components/in.tw": "<{{ n++ }}{{ n }}@slot>", "page.tw": "{{ n = 1 }}@component(\"~in\")@slot@component(\"~in\", {n: n--})@end@end{{ n }}"}
+						want = "<21<10>>1"
+					default: // a float decremented in every pass of a loop of the page and handed to the use
+						files = map[string]string{"components/show.tw": "<{{ p }}>", "page.tw": "{{ price = 2.5 }}@each(k in [1, 2, 3])@component(\"~show\", {p: price--}){{ price }};@end"}
+						want = "<1.5>2.5;<1.5>2.5;<1.5>2.5;"
+					}
+					tpl, err := loadTree(c, "c07ops", files, ".tw")
+					c.Nontrivial(fmt.Sprint("ops", i, files))
+					if err != nil {
+						c.Violation("load-failed", "a valid component tree was rejected: "+err.Error(), map[string]any{"files": describeFiles(files)})
+						return
+					}
+					if tpl == nil {
+						return
+					}
+					for round := 0; round < 2; round++ {
+						got, _ := renderPage(c, tpl, "page", data)
+						if !got.Panicked && (got.Err != nil || got.Out != want) {
+							c.Violation("uses-among-operators", fmt.Sprintf("render %d of the page gave %s, want %q", round+1, got.Describe(), want), map[string]any{"files": describeFiles(files)})
+							return
+						}
+					}
+				}},
 				// text between a component's ")" and what follows is text unless it is plain whitespace before a @slot:
 				// whatever the rest renders to, these bytes must be in the output
 				{Name: "text-after-component", Exhaustive: true, N: 9 * 3, Run: func(c *core.Ctx, i int) {
